@@ -55,5 +55,5 @@ else: print("miss")' "$out")
   git -C /repo worktree remove --force "$wt"
 }
 export -f one
-printf '%s\n' $ids | xargs -P 4 -I{} bash -c 'one {}'
+printf '%s\n' $ids | xargs -P ${P:-4} -I{} bash -c 'one {}'
 rm -f /verif/replays/*.json
